@@ -69,6 +69,21 @@ func Prepare(repo, scratch, simgoDir string, pkgs []string) error {
 			return err
 		}
 	}
+	// a pristine copy under another module path, for worlds that cross-check a
+	// simulated seam against the real thing (fsworld: the real file system)
+	orig := filepath.Join(scratch, "glborig")
+	if err := CopyTree(repo, orig); err != nil {
+		return err
+	}
+	if om, err := os.ReadFile(filepath.Join(orig, "go.mod")); err == nil {
+		lines := strings.Split(string(om), "\n")
+		for i, l := range lines {
+			if strings.HasPrefix(l, "module ") {
+				lines[i] = "module glborig"
+			}
+		}
+		os.WriteFile(filepath.Join(orig, "go.mod"), []byte(strings.Join(lines, "\n")), 0644)
+	}
 	modFile := filepath.Join(dst, "go.mod")
 	mod, err := os.ReadFile(modFile)
 	if err != nil {
